@@ -87,6 +87,13 @@ def run(prop, tier, seed):
     vlib.require_mc_ok(mc, "FractalMC")
     v.cov["states"], v.cov["transitions"], v.cov["mc_depth"] = mc["distinct"], mc["states"], mc["depth"]
     log("MC Fractal (routing invariants): %d distinct states, %.1fs" % (mc["distinct"], mc["wall"]))
+    # the mechanism model of LocalSuperior's locks shows both listed findings as reachable (the fixed schedules below
+    # are its counterexamples run on the real code); if it stopped doing so the model would be vacuous about them
+    for cfg, what in (("FractalImplDup.cfg", "duplicate hand-over on subscribe during AddTask"), ("FractalImplWedge.cfg", "report parked holding the task lock")):
+        mi = vlib.tlc_mc(d, "FractalImpl.tla", cfg, timeout=600)
+        v.cov["impl_" + cfg.replace(".cfg", "") + "_reachable"] = bool(mi["violated"])
+        if not mi["violated"]:
+            raise vlib.Machinery("FractalImpl.tla no longer reaches: " + what)
     special(v, d, drv, seed, reps=1 if tier == "quick" else 5)
     n = 120 if tier == "quick" else 2500
     behs = []
